@@ -236,3 +236,14 @@ def r4(ctx):
         yield VIOL("C19-R4", "get_auth_parameters/carrier-matrix", "presence matrix (header, query) -> outcome deviates: %s" % {str(k): "got %s, want %s" % v for k, v in bad.items()}, where=b.span_of_block(start))
     else:
         yield PASS("C19-R4", "get_auth_parameters/carrier-matrix", "exhaustive over 4 presence combinations: header-only -> header path, query-only -> query path, both -> Err(SignatureDoesNotMatch(None)), neither -> Err(MissingAuthenticationToken)", [site(b, start, "match (auth_header, sig_algs)")])
+
+
+import c12  # noqa: E402
+import c10  # noqa: E402
+
+
+@M.rule("C19-R5", "value lists are in arrival order: URL values first, body values appended; parsed lists only grow by push (shared with C12-R1, C10-R4)")
+def r5(ctx):
+    for r in list(c12.r1(ctx)) + [x for x in c10.r4(ctx) if "insert" in x.key or "store" in x.key or x.status != "PASS"]:
+        r.rule = "C19-R5"
+        yield r
